@@ -1,6 +1,7 @@
 package interp
 
 import (
+	"fmt"
 	"go/types"
 
 	"github.com/klauspost/compress/s2"
@@ -44,7 +45,43 @@ func (i *interpreter) symHash(seed uint64, data []value) []value {
 		// concrete input: the real hash. (Symbolic outputs live in a tagged subspace, see
 		// below, so they can never equal a real hash unless its last 8 bytes are the tag.)
 		sum := meow.Checksum(seed, toBytes(data))
-		return fromBytes(sum[:])
+		out = fromBytes(sum[:])
+		if i.cfg.HashIDs {
+			// remember concrete inputs too: a later symbolic input may equal one of them
+			for _, h := range i.sc.hashes {
+				if h.seed == seed && len(h.data) == len(data) && !anySym(h.data) && string(toBytes(h.data)) == string(toBytes(data)) {
+					return out
+				}
+			}
+			cp := make([]value, len(data))
+			copy(cp, data)
+			i.sc.hashes = append(i.sc.hashes, hashCall{seed, cp, out})
+		}
+		return out
+	}
+	if i.cfg.HashIDs {
+		// "ids" mode: the hash of symbolic input is a concrete identifier; equality with
+		// every earlier input is decided by forking, so equal inputs share one identifier
+		// and different inputs get different ones (one fixed injective function instead
+		// of all of them: the relative ORDER of hashes is not explored in this mode).
+		for _, h := range i.sc.hashes {
+			if h.seed != seed || len(h.data) != len(data) {
+				continue
+			}
+			eq := s.constT(0, 1)
+			for k := range data {
+				eq = s.and(eq, s.mk("=", 0, s.byteT(data[k]), s.byteT(h.data[k])))
+			}
+			if s.branch(eq) {
+				return h.out
+			}
+		}
+		sum := meow.Checksum(seed, []byte(fmt.Sprintf("gosym-hash-id-%d-%d", len(i.sc.hashes), len(data))))
+		out = fromBytes(sum[:])
+		cp := make([]value, len(data))
+		copy(cp, data)
+		i.sc.hashes = append(i.sc.hashes, hashCall{seed, cp, out})
+		return out
 	}
 	// symbolic input: 8 free symbolic bytes followed by a constant 8-byte tag. The free
 	// leading bytes leave the order relative to every other hash open; the tag makes the
